@@ -36,6 +36,18 @@ def _dense(t_list, X):
 # --------------------------------------------------------------------------
 
 def _curves(rng: Rng, N, m, kind=None):
+    X, kind = _curves0(rng, N, m, kind)
+    r = rng.random()
+    if r < 0.15:   # amplitude sweep (exact dyadic factors), and large offsets against a small spread
+        a = Fraction(2) ** rng.choice([-30, -20, 20, 30])
+        X = [[a * x for x in row] for row in X]
+    elif r < 0.25:
+        off = Fraction(2) ** rng.choice([16, 20]) * rng.choice([1, -1])
+        X = [[x + off for x in row] for row in X]
+    return X, kind
+
+
+def _curves0(rng: Rng, N, m, kind=None):
     kind = kind or rng.choice(["rand", "rand", "smooth", "const", "zeros", "lowrank"])
     if kind == "zeros":
         return [[Fraction(0)] * m for _ in range(N)], kind
@@ -54,9 +66,13 @@ def _curves(rng: Rng, N, m, kind=None):
 
 
 def _grid(rng: Rng, m):
-    lo = rng.choice([0, 0, -1, 1, 100, Fraction(-7, 2)])
-    scale = rng.choice([1, 1, 2, 364, Fraction(1, 8)])
-    return rng.grid(m, lo=lo, scale=scale)
+    lo = rng.choice([0, 0, -1, 1, 100, Fraction(-7, 2), 2**21, Fraction(3, 2**30)])
+    # scale sweep over many decades (exact dyadic): wavelengths in metres, day numbers, ...
+    scale = rng.choice([1, 1, 2, 364, Fraction(1, 8), Fraction(1, 2**30), Fraction(1, 2**20), 2**20])
+    pts = [Fraction(float(p)) for p in rng.grid(m, lo=lo, scale=scale)]   # exactly what NumPy will see
+    if any(b <= a for a, b in zip(pts, pts[1:])):                          # offset too large for that spacing
+        pts = rng.grid(m, lo=0, scale=scale)
+    return pts
 
 
 def gen_cases(rng: Rng, tier):
@@ -134,8 +150,21 @@ def gen_cases(rng: Rng, tier):
             K, N = rng.randint(1, min(5, m - 1)), rng.randint(1, 8)
             B, _ = _curves(rng, K, m, "rand")
             C, ck = _curves(rng, N, K, "rand")
-            yield dict(kind=kind, t=[rs(x) for x in _grid(rng, m)], B=[[rs(x) for x in r] for r in B],
-                       C=[[rs(x) for x in r] for r in C], ck=ck)
+            case = dict(kind=kind, t=[rs(x) for x in _grid(rng, m)], B=[[rs(x) for x in r] for r in B],
+                        C=[[rs(x) for x in r] for r in C], ck=ck)
+            if rng.random() < 0.5:
+                # a named family evaluated by FDApy itself (values are read back and fed to the model),
+                # with and without the normalisation option, on domains other than [0, 1]
+                fam = rng.choice(["bsplines", "legendre", "fourier", "wiener"])
+                K = rng.randint(4, 6) if fam == "bsplines" else rng.randint(2, 5)
+                mm = rng.randint(max(K + 3, 9), 25)
+                case.update(family=fam, K=K, is_normalized=rng.random() < 0.6,
+                            # uniform grids: the normalisation option integrates with scipy's Simpson rule, whose
+                            # weights can be negative on strongly non-uniform grids (NaN basis; not this property)
+                            t=[rs(x) for x in rng.grid(mm, lo=rng.choice([0, 0, -1, 2]), scale=rng.choice([1, 1, 2, 5]), uniform=True)],
+                            C=[[rs(x) for x in r] for r in _curves0(rng, N, K, "rand")[0]],
+                            method=rng.choice(["trapz", "trapz", "simpson"]))
+            yield case
 
 
 def search_cases(rng, tier):
@@ -223,6 +252,16 @@ def run_impl(case):
             perm = case["perm"]
             out["Gperm"] = _dense([t], X[perm]).inner_product(noise_variance=s2).tolist()
             out["cnsq"] = fd.center().norm(squared=True).tolist()
+            # the same data handed over as a non-C-contiguous array (Fortran order / transposed view)
+            out["G_fortran"] = _dense([t], np.asfortranarray(X)).inner_product(noise_variance=s2).tolist()
+            if len(t) >= 3:
+                # Simpson route: Gram matrix vs pairwise inner products vs squared norms, same rule
+                Gs = fd.inner_product(method_integration="simpson", noise_variance=0)
+                out["G_simpson"] = Gs.tolist()
+                Xc = fd.center().values
+                tt = np.array(fl(t))
+                out["ip_simpson"] = [[float(_inner_product(Xc[i], Xc[j], tt, method="simpson")) for j in range(len(Xc))] for i in range(len(Xc))]
+                out["cnsq_simpson"] = fd.center().norm(squared=True, method_integration="simpson").tolist()
     elif kind == "gram_seq":
         from FDApy.representation.values import DenseValues
 
@@ -281,12 +320,21 @@ def run_impl(case):
         from FDApy.representation.argvals import DenseArgvals
         from FDApy.representation.values import DenseValues
 
-        basis = Basis(name="given", argvals=DenseArgvals({"input_dim_0": np.array(fl(t))}), values=DenseValues(B))
+        meth = case.get("method", "trapz")
         try:
+            if case.get("family"):
+                basis = Basis(name=case["family"], n_functions=case["K"], argvals=DenseArgvals({"input_dim_0": np.array(fl(t))}),
+                              is_normalized=case["is_normalized"])
+                out["B"] = np.asarray(basis.values).tolist()
+            else:
+                basis = Basis(name="given", argvals=DenseArgvals({"input_dim_0": np.array(fl(t))}), values=DenseValues(B))
             bfd = BasisFunctionalData(basis, C)
-            out["nsq"] = np.asarray(bfd.norm(squared=True)).tolist()
-            out["G"] = np.asarray(bfd.inner_product()).tolist()
-            out["grid_nsq"] = bfd.to_grid().norm(squared=True).tolist()
+            out["nsq"] = np.asarray(bfd.norm(squared=True, method_integration=meth)).tolist()
+            out["G"] = np.asarray(bfd.inner_product(method_integration=meth)).tolist()
+            grid = bfd.to_grid()
+            out["grid_nsq"] = grid.norm(squared=True, method_integration=meth).tolist()
+            tt = np.array(fl(t))
+            out["grid_ip"] = [[float(_inner_product(grid.values[i], grid.values[j], tt, method=meth)) for j in range(len(C))] for i in range(len(C))]
         except ModuleNotFoundError:
             # Gram matrix of the basis failed the Cholesky test; the fallback needs statsmodels (absent)
             out["error"] = "cholesky-fallback"
@@ -339,9 +387,17 @@ def model_lines(case, impl):
         return [f"normsq {J(o['t'])} {J(o['y'])}" for o in case["obs"]]
     if kind == "basis":
         # model of to_grid: X = C B (exact), then the dense norm
-        B, C = _Fm(case["B"]), _Fm(case["C"])
+        if "error" in impl or "__crash__" in impl or case.get("method", "trapz") != "trapz":
+            return []
+        if case.get("family"):
+            if not np.all(np.isfinite(np.array(impl["B"], dtype=float))):
+                return []
+            B = [[F(x) for x in r] for r in impl["B"]]   # the basis values FDApy evaluated, as exact rationals
+        else:
+            B = _Fm(case["B"])
+        C = _Fm(case["C"])
         X = [[sum(c[k] * B[k][j] for k in range(len(B))) for j in range(len(B[0]))] for c in C]
-        return [f"normsq {J(case['t'])} {mat(X)}", f"coefgram {J(case['t'])} {M(case['B'])} {M(case['C'])}"]
+        return [f"normsq {J(case['t'])} {mat(X)}", f"coefgram {J(case['t'])} {mat(B)} {M(case['C'])}"]
     return []
 
 
@@ -352,6 +408,27 @@ def parse_model(case, outs):
     if kind in ("trapz", "int2", "int3"):
         return dict(vals=[o.split(" ") for o in outs])
     return dict(outs=outs)
+
+
+def _gram_scale(case_X, Q, L, extra=0.0):
+    """Scale for comparing a float Gram matrix with the exact one (the tolerance is 1e-9 x this): the size of
+    the matrix plus the rounding of the centring step, which is eps-level relative to
+    (level of the data) x (spread) x (measure of the domain).  A two-pass algorithm stays inside it; a
+    one-pass formula (error ~ eps x level^2) does not."""
+    X = [[float(F(x)) for x in r] for r in case_X]
+    g = max([abs(float(x)) for r in Q for x in r] + [abs(extra), 1e-300])
+    if not X or not X[0]:
+        return g
+    lev = max(abs(x) for r in X for x in r)
+    spread = max(max(c) - min(c) for c in zip(*X))
+    return g + 7.1e-6 * lev * spread * abs(L)
+
+
+def _dom(*ts):
+    L = 1.0
+    for t in ts:
+        L *= float(F(t[-1]) - F(t[0]))
+    return L
 
 
 def _cmp_vec(name, fs, qs, scale=None, rtol=1e-9):
@@ -396,7 +473,8 @@ def compare(case, impl, model):
     elif kind in ("gram", "gram2d"):
         Q = pmat(model["outs"][0])
         G = impl["G"]
-        scale = max([abs(float(x)) for r in Q for x in r] + [abs(float(F(case["s2"]))), 1e-300])
+        L = _dom(case["t"]) if kind == "gram" else _dom(case["t1"], case["t2"])
+        scale = _gram_scale(case["X"], Q, L, float(F(case["s2"])))
         if len(G) != len(Q):
             return [f"gram shape {len(G)} vs {len(Q)}"]
         for i, (gr, qr) in enumerate(zip(G, Q)):
@@ -408,7 +486,7 @@ def compare(case, impl, model):
         for op, r in zip(case["ops"], impl["res"]):
             if op[0] == "ip":
                 Q = pmat(model["outs"][k]); k += 1
-                sc = max([abs(float(x)) for row in Q for x in row] + [abs(float(F(op[1]))), 1e-300])
+                sc = max(_gram_scale(case["X"], Q, _dom(case["t"]), float(F(op[1]))), _gram_scale(case["X2"], Q, _dom(case["t"])))
                 for i, (gr, qr) in enumerate(zip(r, Q)):
                     ds += _cmp_vec(f"step {op}: gram[{i}]", gr, qr, sc, 1e-9)
             elif op[0] == "norm":
@@ -420,7 +498,7 @@ def compare(case, impl, model):
         Qs = [pmat(o) for o in model["outs"][:P]]
         N = len(Qs[0])
         Qsum = [[sum(Q[i][k] for Q in Qs) for k in range(N)] for i in range(N)]
-        scale = max([abs(float(x)) for Q in Qs for r in Q for x in r] + [1e-300])
+        scale = sum(_gram_scale(c["X"], Q, _dom(c["t"])) for c, Q in zip(case["comps"], Qs))
         for i in range(N):
             ds += _cmp_vec(f"multigram[{i}]", impl["G"][i], Qsum[i], scale, 1e-9)
         ns = [pvec(o) for o in model["outs"][P:]]
@@ -493,13 +571,21 @@ def oracle(case, impl):
                 bad("cauchy_schwarz", "|<x,y>| > norm(x) norm(y)", "_inner_product")
         if any(x < 0 for x in impl["nsq"]):
             bad("nonneg", "negative squared norm", "DenseFunctionalData.norm")
-    elif kind == "basis" and "error" not in impl:
+    elif kind == "basis" and "error" not in impl and np.all(np.isfinite(np.array(impl["G"], dtype=float))):
         G = np.array(impl["G"], dtype=float)
         sc = max(np.abs(G).max(), 1e-300)
+        # Basis.inner_product zeroes basis-Gram entries below 1e-12 (absolute, by design): each zeroed entry
+        # moves <c_i, G c_j> by at most 1e-12 |c_ik| |c_jl|
+        l1 = max(sum(abs(float(F(x))) for x in r) for r in case["C"])
+        sc = sc + 1e-3 * l1 * l1          # 1e-9 * (1e-3 l1^2) = 1e-12 l1^2
         if not np.allclose(np.diag(G), impl["grid_nsq"], rtol=1e-7, atol=1e-9 * sc):
             bad("basis_norm", "squared norms from the coefficients differ from those of the evaluated curves", "BasisFunctionalData.inner_product")
         if not np.allclose(impl["nsq"], impl["grid_nsq"], rtol=1e-7, atol=1e-9 * sc):
             bad("basis_norm", "BasisFunctionalData.norm differs from the norm of the evaluated curves", "BasisFunctionalData.norm")
+        if "grid_ip" in impl and not np.allclose(G, np.array(impl["grid_ip"]), rtol=1e-7, atol=1e-9 * sc + 1e-10):
+            bad("basis_inner_product", "coefficient-space Gram matrix differs from the inner products of the evaluated curves "
+                f"(family {case.get('family', 'given')}, is_normalized={case.get('is_normalized')}, {case.get('method', 'trapz')})",
+                "BasisFunctionalData.inner_product")
         if not np.allclose(G, G.T, rtol=0, atol=1e-9 * sc):
             bad("symmetric", "coefficient-space Gram matrix not symmetric", "BasisFunctionalData.inner_product")
         if np.linalg.eigvalsh((G + G.T) / 2).min() < -1e-8 * sc:
@@ -528,13 +614,23 @@ def oracle(case, impl):
         entry = {"gram": "DenseFunctionalData.inner_product", "gram2d": "DenseFunctionalData.inner_product", "multi": "MultivariateFunctionalData.inner_product"}[kind]
         s2 = float(F(case.get("s2", "0")))
         G0 = G + s2 * np.eye(len(G))
-        sc = max(np.abs(G0).max() if G0.size else 0.0, 1e-300)
+        # rounding of (G - s2 I) + s2 I is relative to s2 as well
+        sc = max(np.abs(G0).max() if G0.size else 0.0, abs(s2), 1e-300)
         if not np.allclose(G, G.T, rtol=0, atol=1e-9 * sc):
             bad("symmetric", "Gram matrix not symmetric", entry)
         if G0.size and np.linalg.eigvalsh((G0 + G0.T) / 2).min() < -1e-8 * sc:
             bad("psd", f"Gram matrix has eigenvalue {np.linalg.eigvalsh((G0+G0.T)/2).min()}", entry)
         if G0.size and np.abs(G0.sum(axis=1)).max() > 1e-8 * sc * max(len(G0), 1):
             bad("rows_sum_zero", f"row sums {np.abs(G0.sum(axis=1)).max()}", entry)
+        if kind == "gram" and "G_fortran" in impl and not np.allclose(G, np.array(impl["G_fortran"]), rtol=0, atol=1e-9 * sc):
+            bad("memory_layout", "Gram matrix depends on the memory layout of the values array", entry)
+        if kind == "gram" and "G_simpson" in impl:
+            Gs, Ps = np.array(impl["G_simpson"]), np.array(impl["ip_simpson"])
+            scs = max(np.abs(Ps).max(), 1e-300)
+            if not np.allclose(Gs, Ps, rtol=0, atol=1e-9 * scs):
+                bad("gram_vs_inner_product", "simpson: Gram matrix differs from the pairwise inner products of the centred curves", entry)
+            if not np.allclose(np.diag(Gs), impl["cnsq_simpson"], rtol=0, atol=1e-9 * scs):
+                bad("diagonal", "simpson: diagonal is not the squared norm of the centred curves", entry)
         if kind == "gram":
             if not np.allclose(np.diag(G0), impl["cnsq"], rtol=1e-8, atol=1e-9 * sc):
                 bad("diagonal", "diagonal is not the squared norm of the centred curves", entry)
